@@ -33,7 +33,9 @@ ASSUMPTIONS = [
     "floats are read as the exact rationals they denote; output coordinates are compared with tolerance 2^-40 x scale; reproduced values with "
     "2^-30 (linear, nearest) or 2^-20 (cubic) relative to the largest input magnitude; ranges with 2^-30",
     "finite-inside-the-hull under antialias=True with linear/cubic is claimed only for axis-aligned (separable) projections of hole-free grids "
-    "(see finding C16-antialias-hull-shrink)",
+    "with default region/shape/spacing (see finding C16-antialias-hull-shrink)",
+    "project_grid coordinates stay within 2^14 grid steps of the origin per axis (absolute values up to 1.6e7): beyond ~1e6 steps the "
+    "un-normalised Delaunay triangulation inside Linear/Cubic loses data points (finding C16-interpolator-large-offset, reported, not generated)",
 ]
 TRUSTED = ["harness/c16.py (generators, logging wrapper around the projection callable, observation of xarray objects as exact dyadics)"]
 
@@ -138,8 +140,6 @@ def lattice_queries(rnd, pts, nq, size=8):
     for a, b in rnd.sample(E, min(len(E), 4)):                                 # on, just inside, just outside of hull edges
         mx, my = (a[0] + b[0]) / 2, (a[1] + b[1]) / 2
         dxn, dyn = -(b[1] - a[1]), (b[0] - a[0])                               # inward normal (left of a->b)
-        s = F(1, 4) / max(abs(dxn), abs(dyn))
-        s = F(1, 4) if s >= F(1, 4) else F(1, 4)
         for k in (0, 1, -1):
             qs.append((float(mx) + 0.25 * k * (1 if dxn > 0 else -1 if dxn < 0 else 0),
                        float(my) + 0.25 * k * (1 if dyn > 0 else -1 if dyn < 0 else 0)))
@@ -340,7 +340,7 @@ def pg_cases(vd, rnd, nprng, proj, separable, method, antialias, argkind, kind, 
         cases.append(Case(dict(inp, part="main"), obs, term, repro, kind))
         if antialias:
             cases.append(Case(dict(inp, part="range"), obs, "c16_pg_range %s %s" % (orows(v), orows(ov)), repro, kind + "-range"))
-    if antialias and method != "nearest" and (shrink_stream or (separable and holes == 0)):
+    if antialias and method != "nearest" and (shrink_stream or (separable and holes == 0 and argkind == "none")):
         cases.append(Case(dict(inp, part="inside"), obs, "c16_pg_inside %s %s %s %s %s" % (dl(pe), dl(pn), dl(oe), dl(on), orows(ov)),
                           repro, kind + "-inside"))
     return cases
@@ -407,8 +407,10 @@ def generate(tier, seed):
             if r < 0.5:
                 sx = rnd.choice([0.5, 1.0, 2.0, 4.0, 1000.0, -2.0])
                 sy = rnd.choice([0.5, 1.0, 2.0, 0.25, 1000.0, -1.0])
-                ox = rnd.choice([0.0, 1.0, -3.5, 1e6, 2.0 ** 20])
-                oy = rnd.choice([0.0, -3.0, 0.25, -1e6])
+                # offsets up to 2^14 projected grid steps (1.6e7 in absolute terms): beyond ~1e6 steps the
+                # un-normalised Delaunay triangulation of Linear/Cubic degrades (finding C16-interpolator-large-offset)
+                ox = rnd.choice([0.0, 1.0, -3.5, 2.0 ** 12 * abs(sx), -(2.0 ** 14) * abs(sx)])
+                oy = rnd.choice([0.0, -3.0, 0.25, -(2.0 ** 12) * abs(sy), 2.0 ** 14 * abs(sy)])
                 proj, sep = affine_projection(sx, ox, sy, oy), True
             else:
                 nm = rnd.choice(sorted(NONLINEAR))
